@@ -442,7 +442,7 @@ pub fn run(ctx: &Ctx) -> (Stats, Spec) {
     st.merge(s2);
     st.exhaustive.push("not over all 256 functions x 5 configurations; var and mk_const over every label used".into());
 
-    let iters = ctx.tier.pick(4_000u64, 600_000u64);
+    let iters = ctx.tier.pick(30_000u64, 600_000u64);
     let parts = util::par_jobs(16, |job| {
         let mut s = random_part(ctx, job, iters);
         s.merge(named_part(ctx, job, iters / 2));
